@@ -96,7 +96,15 @@ namespace OpenMEEG {
             mat.setlin(i,v);
         }
 
-        // Initialize private members
+        // Initialize private members (nothing of a previous load survives)
+
+        m_nb = 0;
+        m_names.clear();
+        m_triangles.clear();
+        m_pointSensorIdx.clear();
+        m_orientations = Matrix();
+        m_weights = Vector();
+        m_radii = Vector();
 
         m_positions = mat.submat(0,nlin,0,3);
 
